@@ -114,6 +114,12 @@ CHECKS = {
   design_ref="DESIGN.md §4 C10",
   note="Trusted: Lean kernel + standard axioms; hand component models tied by harvested-call replay; classes not modelled are covered by exploration only (listed in the evidence); cooldown/buff-duration results are parameters (proved in C12).",
   technique="Lean 4 proof per component class + harvested-call replay + forked-USE exploration"),
+ "C02": dict(
+  category="other",
+  text="Partial by nature: a functional model cannot exhibit CPython thread switching, hash randomisation or object aliasing. PROVED in Lean: schedule_independent (for every set of sessions and EVERY interleaving of their atomic steps around the lazily created shared repository, incl. racing constructions, each finished session's result equals its result when run alone, under the frame hypothesis that no step writes a cell reachable from the shared repository), every_session_can_finish, shared_data_unchanged, route_cache_transparent/exact (the router's memo returns the same store and events as the router without it, incl. re-entrant dispatchers), interpret_frame/interpret_pure over a heap model of Spec.interpret with object identity. DECIDED by the differential the property describes on the real code: every (job, environment, plan) alone in a fresh interpreter vs the same batch in one process in several orders, interleaved command by command, on thread pools, and under several PYTHONHASHSEED values, plus a deep snapshot of all module/class-level shared state around every build and run; differences are shrunk to the smallest batch and order.",
+  design_ref="DESIGN.md §4 C02",
+  note="Protocol theorems assume hFrame (observed by the snapshots) and state-independent `includes`; thread interleavings and hash seeds are sampled, not exhausted; Lark's internal state is covered only by the digests.",
+  technique="Lean 4 proof of the sharing protocol + fresh-process differential (observation)"),
 }
 
 NOT_YET = "check not built yet in this round (work in progress; see DESIGN.md §6 build order)"
